@@ -103,6 +103,11 @@ def digits(n):
 
 def scale_floats(xs):
     """Exact common scaling of float64 values: returns (S, [int(x * 2^S)])."""
+    for x in xs:
+        if not math.isfinite(float(x)):
+            # every value encoded here is finite on a correct tree (decoded counters, probabilities,
+            # draws, estimates): a NaN or infinity comes from the implementation under test
+            raise common.ImplMisbehaved("the implementation produced the non-finite value %r" % (x,))
     fr = [Fraction(float(x)) for x in xs]
     S = 0
     for f in fr:
@@ -167,11 +172,23 @@ class LogRecorder:
     def __init__(self, cf, W, D, NS, rng):
         self.cf, self.W, self.D, self.NS, self.rng = cf, W, D, NS, rng
         self.slots = [cf.new(W, D) for _ in range(NS)]
+        # every batch of draws any sketch ever holds must be a new one: sketches created in the same
+        # process (or loaded) must not share their random batches
+        self.batches = set()
+        self.init_fresh = all(self.new_batch(sk) for sk in self.slots)
         self.keys = {}
         self.events = []
         self.need_val = {0, cf.nr, min(cf.nr + 1, cf.umax), cf.umax, cf.umax - 1}
         self.need_p = {0}
         self.floats_draw = []       # all draw floats (for the common scale)
+
+    def new_batch(self, sk):
+        """True iff the sketch's current batch has never been seen in this history and lies in [0, 1)."""
+        a = np.asarray(sk.rand_nums)
+        d = a.tobytes()
+        ok = d not in self.batches and bool(np.all(a >= 0.0) and np.all(a < 1.0)) and len(np.unique(a)) > 2000
+        self.batches.add(d)
+        return ok
 
     def key(self, k):
         if k not in self.keys:
@@ -357,7 +374,7 @@ class LogRecorder:
             if os.path.exists(p):
                 os.unlink(p)
         self.slots[t] = new
-        self.emit({"ev": "saveload", "s": s + 1, "t": t + 1})
+        self.emit({"ev": "saveload", "s": s + 1, "t": t + 1, "fresh_ok": self.new_batch(new)})
 
     def add_records(self, s, n):
         self.slots[s].n_added_records[1] += np.uint64(n)
@@ -391,7 +408,7 @@ class LogRecorder:
             if e["ev"] == "query":
                 e["out"] = digits(qmap[e.pop("out_f")])
             evs.append(e)
-        return {"W": self.W, "D": self.D, "NS": self.NS, "kind": cf.kind,
+        return {"W": self.W, "D": self.D, "NS": self.NS, "kind": cf.kind, "init_fresh": bool(self.init_fresh),
                 "UMax": cf.umax, "NR": cf.nr, "max_count": str(cf.max_count),
                 "MaxCount": digits(vints[len(vals)]),
                 "Val": [[c, digits(v)] for c, v in zip(vals, vints)],
